@@ -1,13 +1,18 @@
 /- C03 line-protocol driver: prints `model <TAB> spec` for each case line.
 
-   new own=sv|iv|st|ss|fs|var|opt|exp|fn kind=cm|mo|co cap=N       two default-constructed owners A (t=0), B (t=1)
+   new own=sv|iv|st|ss|fs|var|opt|exp|fn kind=cm|mo|co|da|dm|dc cap=N   two default-constructed owners A (t=0), B (t=1)
+                                                                  (da / dm / dc: copy+move element types with defaulted assignment /
+                                                                   defaulted move operations / defaulted copy operations)
    <op> t=0|1 args...                                             one member call on the target (the other object is the source)
    detail                                                         model only: slot maps and cumulative event counts (spec column `*`)
    end                                                            both owners go out of scope
 
    every op line answers   e=<-|error> t=<live locals> x=<misplaced slots> A=<owner> B=<owner>
    owner := [v,..] (container; M = moved-from element) | ix:v (variant-like / function; `-` no value) | u (moved-from owner)
-   `end` answers           e=<-|error> live=<objects alive> bal=<1 iff #constructed = #destroyed>                    -/
+   `end` answers           e=<-|error> live=<objects alive> bal=<1 iff #constructed = #destroyed>
+   event counts of `detail`: a category whose special member is defaulted in the element kind is invisible to an observer and
+   printed `-`; with exactly one defaulted constructor the constructions through it are seen later (when a user-provided member
+   first meets the object) and are printed                                                                   -/
 import Tetl.Proto
 import Tetl.C03.Session
 import Tetl.C03.Spec
@@ -22,7 +27,8 @@ def ownOf : String → Option Own
   | "var" => some .var | "opt" => some .opt | "exp" => some .exp | "fn" => some .fn | _ => none
 
 def kindOf : String → Option Kind
-  | "cm" => some .cm | "mo" => some .mo | "co" => some .co | _ => none
+  | "cm" => some .cm | "mo" => some .mo | "co" => some .co
+  | "da" => some .da | "dm" => some .dm | "dc" => some .dc | _ => none
 
 def Own.isVec : Own → Bool
   | .sv | .iv | .st | .ss | .fs => true
@@ -131,7 +137,9 @@ def detailLine (ss : Ses) : String :=
     let cap := ss.cap
     let seg (lo : Nat) := "[" ++ ",".intercalate ((List.range cap).map fun i => fmtSlot (slotAt m (lo + i))) ++ "]"
     let c := m.cnt
-    s!"A={seg 0} B={seg cap} c={c.vc},{c.cc},{c.mc},{c.ca},{c.ma},{c.d}"
+    let tr := ss.k.tr
+    let vis (b : Bool) (n : Nat) : String := if b then toString n else "-"
+    s!"A={seg 0} B={seg cap} c={c.vc},{vis (tr.cc || tr.mc) c.cc},{vis (tr.mc || tr.cc) c.mc},{vis tr.ca c.ca},{vis tr.ma c.ma},{vis tr.dt c.d}"
 
 def tOf (l : Line) : Bool := (l.nat? "t").getD 0 == 1
 
